@@ -110,7 +110,8 @@ class Snapshot(object):
         sys.path[:] = self.path
 
 
-PATH_VARIANTS = [None, 'empty-front', 'empty-middle', 'empty-end', 'dot-front', 'dup', 'empty-dup', 'empty-and-dot']
+PATH_VARIANTS = [None, 'empty-front', 'empty-middle', 'empty-end', 'dot-front', 'dup', 'empty-dup', 'empty-and-dot',
+                 'moddir-front', 'moddir-middle']
 
 
 class PathVariant(object):
@@ -148,6 +149,12 @@ class PathVariant(object):
         elif v == 'empty-and-dot':
             p.insert(1, '')
             p.append('.')
+        elif v == 'moddir-front':
+            # the directory of the module under test is ALREADY a search path entry (project root of `python -m`, a PYTHONPATH
+            # entry, pytest's rootdir), before the entries it must keep precedence over
+            p.insert(0, self.tmpdir)
+        elif v == 'moddir-middle':
+            p.insert(mid, self.tmpdir)
         sys.path[:] = p
         return self
 
@@ -340,6 +347,7 @@ def run_doctest_case(spec, tmpdir, name):
     snap = Snapshot()
     exc = None
     extras = []
+    rerun_fails = []
     try:
         try:
             ex.run(on_error=spec.get('on_error', 'return'), verbose=0)
@@ -349,6 +357,24 @@ def run_doctest_case(spec, tmpdir, name):
         after = snap.render_now(objs)
         loop = snap.loop_running()
         extras = snap.extras_diff(spec.get('lookup_only', ()))
+        # the SAME DocTest object run again while ANOTHER stream is sys.stdout (a redirection that was not there during the
+        # first run: capsys, redirect_stdout, a retry wrapper): after each run sys.stdout must be the object it was before THAT run
+        for i in range(int(spec.get('reruns', 0))):
+            mine = io.StringIO()
+            held, sys.stdout = sys.stdout, mine
+            path_before = list(sys.path)
+            try:
+                try:
+                    ex.run(on_error=spec.get('on_error', 'return'), verbose=0)
+                except BaseException:   # noqa
+                    pass
+                if sys.stdout is not mine:
+                    rerun_fails.append('run %d of the same DocTest object, started with a fresh stream as sys.stdout: afterwards sys.stdout is %s' % (
+                        i + 2, 'the stream of an EARLIER run' if sys.stdout is held or sys.stdout is snap.stdout else 'another object (%s)' % type(sys.stdout).__name__))
+                if not spec.get('edits_path') and list(sys.path) != path_before:
+                    rerun_fails.append('run %d of the same DocTest object: sys.path %r before, %r after' % (i + 2, path_before, list(sys.path)))
+            finally:
+                sys.stdout = held
     finally:
         snap.restore()
         snap.restore_extras()
@@ -365,7 +391,7 @@ def run_doctest_case(spec, tmpdir, name):
     line = '\t'.join(['runbracket', '1,2,3,4,5', '7,8', enc_list(snap.path), pre] + parts)
     return {'model_line': line, 'observed': '%s %s' % (coarse(real_end), after), 'before': snap.render_before(),
             'after': after, 'loop': loop, 'source': src, 'real_end': real_end, 'failed': failed, 'extras': extras,
-            'path_before': snap.path, 'exc': repr(exc)[:200] if exc is not None else None}
+            'path_before': snap.path, 'exc': repr(exc)[:200] if exc is not None else None, 'rerun_fails': rerun_fails}
 
 
 def normalize_model(ans):
